@@ -106,6 +106,7 @@ type record struct {
 
 // store is one key store (format x poison-key history).
 type store struct {
+	Broken  string // set when the key history itself went wrong (reported as a violation by main)
 	Name    string
 	Format  string // v1 | v2
 	Hist    int    // number of poison keys of each kind (1 = generate, 2 = generate+rotate, 3 = rotate twice)
@@ -142,6 +143,51 @@ func makeRecords(st *store, keyIndex int) {
 // runHistory generates hist poison keys of each kind; records are made under every key while it
 // is the current one. Afterwards Age is turned from key index into "rotations since".
 func runHistory(st *store) {
+	// history 4 = three generations, then the middle generation of both poison keys is destroyed
+	// (records made under it are dropped: nothing can recognise them any more); records of the
+	// oldest generation must still be recognised
+	destroyMiddle := st.Hist == 4
+	if destroyMiddle {
+		st.Hist = 3
+	}
+	defer func() {
+		if !destroyMiddle {
+			return
+		}
+		d, ok := st.Gen.(interface {
+			DestroyRotatedPoisonKeyPair(index int) error
+			DestroyRotatedPoisonSymmetricKey(index int) error
+		})
+		if !ok {
+			ev.Fatalf("%s: key store cannot destroy rotated poison keys", st.Name)
+		}
+		// rotated keys are addressed by their listing index (the current key is 1, the rotated keys
+		// follow oldest first): 3 is the middle one of three generations
+		if err := d.DestroyRotatedPoisonKeyPair(3); err != nil {
+			ev.Fatalf("%s: DestroyRotatedPoisonKeyPair: %v", st.Name, err)
+		}
+		if err := d.DestroyRotatedPoisonSymmetricKey(3); err != nil {
+			ev.Fatalf("%s: DestroyRotatedPoisonSymmetricKey: %v", st.Name, err)
+		}
+		// the records that can no longer be opened with the poison keys the store offers are dropped:
+		// that must be the records of the middle generation and of no other
+		reg := crypto.NewRegistryHandler(st.KS)
+		gone := map[int]bool{}
+		var kept []record
+		for _, rc := range st.Records {
+			ctx := base.SetAccessContextToContext(context.Background(), base.NewAccessContext())
+			_, err := reg.Process(append([]byte{}, rc.Data...), &base.DataProcessorContext{Keystore: crypto.NewPoisonRecordKeyStoreWrapper(st.KS), Context: ctx})
+			if err != nil {
+				gone[rc.Age] = true
+				continue
+			}
+			kept = append(kept, rc)
+		}
+		if len(gone) != 1 || !gone[1] {
+			st.Broken = fmt.Sprintf("destroying the middle generation of the poison keys made the records of these generations unreadable (rotations since: %v)", gone)
+		}
+		st.Records = kept
+	}()
 	for k := 0; k < st.Hist; k++ {
 		if k > 0 || st.Format == "v2" { // v1 worlds come with the first pair/key generated
 			if err := st.Gen.GeneratePoisonKeyPair(); err != nil {
